@@ -71,7 +71,7 @@ inductive Polled (ι : Type)
   | pending                -- Pending
   | blocked                -- the read script is exhausted: Pending forever
   | panic
-  deriving Repr
+  deriving DecidableEq, Repr
 
 /-- The part of one `poll_next` loop iteration that does not touch the transport.
     `none` = fall through to reading. -/
@@ -114,17 +114,20 @@ def pollNext {σ ι} (D : Decoder σ ι) (s : σ) (r : ReadFrame) (evs : List Re
     | .eof :: evs' =>
       if r'.eof then (.done, s', r', evs')
       else pollNext D s' { r' with eof := true, isReadable := true } evs'
-termination_by evs.length
 
-/-- `framed.next().await`: poll until ready; `pending` events are skipped.
-    The number of `Pending`s seen is returned (each is a suspension point). -/
+/-- `framed.next().await` with `fuel` polls: poll until ready; `pending` events are skipped -/
+def awaitNextFuel {σ ι} (D : Decoder σ ι) : Nat → σ → ReadFrame → List ReadEv →
+    Polled ι × σ × ReadFrame × List ReadEv
+  | 0, s, r, evs => (.blocked, s, r, evs)
+  | fuel + 1, s, r, evs =>
+    match pollNext D s r evs with
+    | (.pending, s', r', evs') => awaitNextFuel D fuel s' r' evs'
+    | res => res
+
+/-- `framed.next().await`: every `Pending` consumes one read event, so `length + 1` polls suffice -/
 def awaitNext {σ ι} (D : Decoder σ ι) (s : σ) (r : ReadFrame) (evs : List ReadEv) :
     Polled ι × σ × ReadFrame × List ReadEv :=
-  match pollNext D s r evs with
-  | (.pending, s', r', evs') =>
-    if evs'.length < evs.length then awaitNext D s' r' evs' else (.blocked, s', r', evs')
-  | res => res
-termination_by evs.length
+  awaitNextFuel D (evs.length + 1) s r evs
 
 /-! ### write side -/
 
